@@ -800,34 +800,67 @@ Proof.
   - intros a [[n k] sty] H. apply reg_In in H. cbn. tauto.
 Qed.
 
-(* every call site placed before the main loop gets exactly one tick call per pass *)
-Lemma setup_site_ticked setup loop pre n sty post : setup = pre ++ (n, sty) :: post ->
+Lemma sites_ticked (sites pre : list site) n sty post : sites = pre ++ (n, sty) :: post ->
+  In (n, count_name n pre, sty) (flat_map (fun name => registered name 0 sites) (sorted_set (map fst sites))).
+Proof.
+  intros ->. apply in_flat_map. exists n. split.
+  - apply In_sorted_set. rewrite map_app. apply in_or_app. right. left. reflexivity.
+  - exact (reg_site n 0 pre sty post).
+Qed.
+
+(* every call site - before the main loop, inside it, or in a function body - gets exactly one tick
+   call per pass: the k-th site of display n is ticked through its own variable with its own style *)
+Lemma site_ticked setup loop pre n sty post : setup ++ loop = pre ++ (n, sty) :: post ->
   In (n, count_name n pre, sty) (loop_ticks setup loop) /\ NoDup (loop_ticks setup loop).
 Proof.
   intro E. split; [|apply loop_ticks_NoDup].
-  unfold loop_ticks. apply in_flat_map. exists n. split.
-  - apply In_sorted_set. rewrite map_app. apply in_or_app. left. subst setup.
-    rewrite map_app. apply in_or_app. right. left. reflexivity.
-  - subst setup. exact (reg_site n 0 pre sty post).
+  exact (sites_ticked (setup ++ loop) pre n sty post E).
 Qed.
 
-(* a call site inside the main loop is declared but never ticked *)
-Lemma loop_site_never_ticked setup loop pre n sty post : loop = pre ++ (n, sty) :: post ->
-  In (n, count_name n setup + count_name n pre, sty) (all_vars setup loop) /\
-  forall sty', ~ In (n, count_name n setup + count_name n pre, sty') (loop_ticks setup loop).
+Lemma setup_site_ticked setup loop pre n sty post : setup = pre ++ (n, sty) :: post ->
+  In (n, count_name n pre, sty) (loop_ticks setup loop) /\ NoDup (loop_ticks setup loop).
 Proof.
-  intro E. split.
-  - unfold all_vars. apply in_flat_map. exists n. split.
-    + apply In_sorted_set. rewrite map_app. apply in_or_app. right. subst loop.
-      rewrite map_app. apply in_or_app. right. left. reflexivity.
-    + subst loop. rewrite app_assoc. rewrite <- count_name_app.
-      exact (reg_site n 0 (setup ++ pre) sty post).
-  - intros sty' H. unfold loop_ticks in H. apply in_flat_map in H as (a & _ & H).
-    apply reg_In in H. pose proof (count_name_nonneg n pre). destruct H as [<- H]. lia.
+  intro E. apply (site_ticked setup loop pre n sty (post ++ loop)). subst setup.
+  rewrite <- app_assoc. reflexivity.
 Qed.
 
-Lemma loop_ticks_all_vars setup : loop_ticks setup [] = all_vars setup [].
-Proof. unfold loop_ticks, all_vars. rewrite !app_nil_r. reflexivity. Qed.
+(* a call site inside the main loop is declared and ticked (its index continues the setup sites') *)
+Lemma loop_site_ticked setup loop pre n sty post : loop = pre ++ (n, sty) :: post ->
+  In (n, count_name n setup + count_name n pre, sty) (all_vars setup loop) /\
+  In (n, count_name n setup + count_name n pre, sty) (loop_ticks setup loop) /\
+  NoDup (loop_ticks setup loop).
+Proof.
+  intro E. rewrite <- count_name_app.
+  assert (H : In (n, count_name n (setup ++ pre), sty) (loop_ticks setup loop) /\ NoDup (loop_ticks setup loop)).
+  { apply (site_ticked setup loop (setup ++ pre) n sty post). subst loop. rewrite app_assoc. reflexivity. }
+  split; [exact (proj1 H)|exact H].
+Qed.
+
+Lemma loop_ticks_all_vars setup loop : loop_ticks setup loop = all_vars setup loop.
+Proof. reflexivity. Qed.
+
+(* no spurious tick: every tick call is the tick of one particular call site (the k-th of its display) *)
+Lemma reg_In_site name sites : forall k n k' sty,
+  In (n, k', sty) (registered name k sites) ->
+  n = name /\ exists pre post, sites = pre ++ (name, sty) :: post /\ k' = k + count_name name pre.
+Proof.
+  induction sites as [|[n0 s0] rest IH]; intros k n k' sty H; cbn [registered] in H; [destruct H|].
+  destruct (n0 =? name) eqn:E.
+  - apply Z.eqb_eq in E. subst n0. destruct H as [H|H].
+    + inversion H; subst. split; [reflexivity|]. exists [], rest. split; [reflexivity|]. unfold count_name. cbn. lia.
+    + apply IH in H as (-> & pre & post & -> & ->). split; [reflexivity|].
+      exists ((name, s0) :: pre), post. split; [reflexivity|]. rewrite count_name_cons. cbn [fst]. rewrite Z.eqb_refl. lia.
+  - apply IH in H as (-> & pre & post & -> & ->). split; [reflexivity|].
+    exists ((n0, s0) :: pre), post. split; [reflexivity|]. rewrite count_name_cons. cbn [fst]. rewrite E. lia.
+Qed.
+
+Lemma loop_tick_has_site setup loop n k sty :
+  In (n, k, sty) (loop_ticks setup loop) ->
+  exists pre post, setup ++ loop = pre ++ (n, sty) :: post /\ k = count_name n pre.
+Proof.
+  unfold loop_ticks. intro H. apply in_flat_map in H as (name & _ & H).
+  apply reg_In_site in H as (-> & pre & post & E & ->). exists pre, post. split; [exact E|lia].
+Qed.
 
 (* ------------------------------------------------------------------------------------------ *)
 (* host: rows and LCD.line                                                                    *)
@@ -1452,29 +1485,27 @@ Proof.
 Qed.
 
 (* ------------------------------------------------------------------------------------------ *)
-(* tick injection: the full-strength statement fails (witness), the guarded one holds         *)
+(* tick injection: every declared animation variable is ticked exactly once per pass          *)
 (* ------------------------------------------------------------------------------------------ *)
 
-(* "every declared animation variable is ticked in loop()" is false: one LCD (name 0) with a single
-   lcd.animate("scroll", ...) placed inside `while True:` *)
-Lemma tick_injected_refuted :
-  exists (setup loop : list site) (v : Z * Z * style),
-    In v (all_vars setup loop) /\ ~ In v (loop_ticks setup loop).
+(* wherever the call sites are - before the main loop, inside it, in function bodies - the tick calls at
+   the head of loop() are exactly the declared variables, none twice, and each site is ticked through
+   its own variable with its own style; conversely every tick call belongs to one site *)
+Lemma tick_injected setup loop :
+  loop_ticks setup loop = all_vars setup loop /\ NoDup (loop_ticks setup loop) /\
+  (forall pre n sty post, setup ++ loop = pre ++ (n, sty) :: post -> In (n, count_name n pre, sty) (loop_ticks setup loop)) /\
+  (forall n k sty, In (n, k, sty) (loop_ticks setup loop) ->
+     exists pre post, setup ++ loop = pre ++ (n, sty) :: post /\ k = count_name n pre).
 Proof.
-  exists [], [(0, Scroll)], (0, 0, Scroll). split.
-  - vm_compute. left. reflexivity.
-  - vm_compute. intros [].
+  split; [apply loop_ticks_all_vars|]. split; [apply loop_ticks_NoDup|]. split.
+  - intros pre n sty post E. exact (proj1 (site_ticked setup loop pre n sty post E)).
+  - apply loop_tick_has_site.
 Qed.
 
-(* guard: no lcd.animate call inside the main loop; then the tick calls are exactly the declared
-   variables, each once *)
-Lemma tick_injected_partial setup :
-  loop_ticks setup [] = all_vars setup [] /\ NoDup (loop_ticks setup []) /\
-  forall pre n sty post, setup = pre ++ (n, sty) :: post -> In (n, count_name n pre, sty) (loop_ticks setup []).
-Proof.
-  split; [apply loop_ticks_all_vars|]. split; [apply loop_ticks_NoDup|].
-  intros pre n sty post E. exact (proj1 (setup_site_ticked setup [] pre n sty post E)).
-Qed.
+(* the former witness of the refutation (one display, a single lcd.animate("scroll", ...) inside
+   `while True:`): its variable is now ticked *)
+Lemma ex_loop_site_ticked : loop_ticks [] [(0, Scroll)] = [(0, 0, Scroll)] /\ all_vars [] [(0, Scroll)] = [(0, 0, Scroll)].
+Proof. split; reflexivity. Qed.
 
 (* ------------------------------------------------------------------------------------------ *)
 (* host: whole-object statements over tick histories                                          *)
